@@ -30,8 +30,14 @@ pub use connection::Connection;
 pub use routing::Router;
 pub use waiters::Waiters;
 
+#[cfg(not(rumqtt_verif_small))]
 pub const MAX_SCHEDULE_ITERATIONS: usize = 100;
+#[cfg(not(rumqtt_verif_small))]
 pub const MAX_CHANNEL_CAPACITY: usize = 200;
+#[cfg(rumqtt_verif_small)]
+pub const MAX_SCHEDULE_ITERATIONS: usize = 2;
+#[cfg(rumqtt_verif_small)]
+pub const MAX_CHANNEL_CAPACITY: usize = 4;
 
 pub(crate) type FilterIdx = usize;
 
@@ -410,4 +416,16 @@ pub enum Print {
     Subscriptions,
     Subscription(Filter),
     Waiters(Filter),
+}
+
+#[cfg(rumqtt_verif)]
+pub(crate) fn verif_request(r: &DataRequest) -> serde_json::Value {
+    serde_json::json!({
+        "filter": r.filter,
+        "idx": r.filter_idx,
+        "qos": r.qos,
+        "cursor": [r.cursor.0, r.cursor.1],
+        "retained": r.forward_retained,
+        "group": r.group,
+    })
 }
